@@ -194,3 +194,48 @@ func cmdSemFile(args []string) {
 	lw.close()
 	printJSON(J{"cases": written, "ndropped": dropped, "dropped": []string{"values outside the trace vocabulary or unparsable"}, "outcomes": outcomes, "distinct_shapes": written, "samples": []any{}, "hooks": hooksPresent, "lines": lw.n})
 }
+
+// vh sem-gen <gen.ndjson> <out.ndjson>: replay the members of a SemMC.tla family (printed by TLC) into the real interpreter
+func cmdSemGen(args []string) {
+	if len(args) != 2 {
+		die(2, "usage: vh sem-gen <gen> <out>")
+	}
+	lw := newLineWriter(args[1])
+	written, dropped := 0, 0
+	outcomes := map[string]int{}
+	shapes := map[string]bool{}
+	var samples []any
+	readLines(args[0], func(b []byte) {
+		var g struct {
+			Stmts []any                       `json:"stmts"`
+			Bal   map[string]map[string]int64 `json:"bal"`
+		}
+		if err := json.Unmarshal(b, &g); err != nil {
+			die(2, "bad gen line: %v", err)
+		}
+		normNums(g.Stmts)
+		c := &Case{ID: written + dropped, Corpus: "family", Decls: []any{}, Stmts: g.Stmts, VarVals: map[string]J{}, RawVars: map[string]string{}, Bal: g.Bal,
+			Meta: map[string]map[string]string{}}
+		c.Text = printProgram(c.Decls, c.Stmts)
+		er := execCase(c)
+		if er.dropped != "" {
+			dropped++
+			return
+		}
+		lw.write(er.caseLine)
+		for _, e := range er.events {
+			lw.write(e)
+		}
+		lw.write(er.outcome.toJSON())
+		written++
+		outcomes[er.outcome.St]++
+		if len(er.outcome.Post) >= 2 || er.outcome.St != "ok" {
+			shapes[shapeOf(er.caseLine["stmts"])+"|"+er.outcome.St+"|"+strconv.Itoa(len(er.outcome.Post))] = true
+		}
+		if len(samples) < 2 && len(er.outcome.Post) >= 2 {
+			samples = append(samples, J{"text": c.Text, "balances": c.Bal, "postings": postingsToJSON(er.outcome.Post)})
+		}
+	})
+	lw.close()
+	printJSON(J{"cases": written, "ndropped": dropped, "dropped": []string{}, "outcomes": outcomes, "distinct_shapes": len(shapes), "samples": samples, "hooks": hooksPresent, "lines": lw.n})
+}
